@@ -17,7 +17,7 @@ SCALAR_HEADS = {
 }
 VECTOR_HEADS = {
     "vvar", "slice", "row", "col", "diag", "vbin", "rvbin", "vneg", "vpow", "vun", "mv",
-    "matmulf", "Mv", "arr", "lst",
+    "matmulf", "Mv", "arr", "lst", "cvec",
 }
 MATRIX_HEADS = {"mvar", "T", "sub", "mbin", "rmbin", "mneg", "diagm", "arr2", "lst2"}
 
@@ -190,6 +190,7 @@ class Interp:
         return [self.A.const(c) for c in r[1]]
 
     _lst = _arr
+    _cvec = _arr
 
     def _slice(self, r):
         out = self.ev(r[1])[_sl(r[2], r[3], r[4])]
